@@ -6,7 +6,8 @@
 (*      the three programs the repository's own graph tests use            *)
 (*      (graph.rs mock_program: 16 nodes / 20 edges as asserted there;     *)
 (*      graph.rs add_indirect_jumps: 2 / 2; forward_interprocedural_       *)
-(*      fixpoint.rs mock_project) and a program exercising every rule.     *)
+(*      fixpoint.rs mock_project), a program exercising every rule and a   *)
+(*      program with conditionally executed calls (CBranch + call-like).   *)
 (*  (2) All tiny programs: TLC enumerates every program with the block     *)
 (*      layouts in Layouts over the jump-shape alphabet Shapes and checks  *)
 (*      the internal consistency GraphSane of the definitions (edges       *)
@@ -162,6 +163,55 @@ H4EdgeBag ==
     Edge("CrReturnStub", BE("f7", "f"), CR("g2", "g", "f7", "f"), "", ""),
     Edge("ReturnCombine", CR("g2", "g", "f7", "f"), BS("g1", "g"), "kg2", "")>>))
 
+(***************************************************************************)
+(* H5: a conditional branch followed by a call-like instruction (a         *)
+(* conditionally executed call).  p0: CBranch + internal Call with return  *)
+(* site; p1: CBranch + extern Call; p2: CBranch + CallInd; p3: CBranch +   *)
+(* CallOther (nothing for the CallOther); p4: CBranch + internal Call      *)
+(* without return site; p5: CBranch + Return.  q returns from q0 (second   *)
+(* position) and q1.  The untaken conditional is NOT recorded on call,     *)
+(* stub or return edges.                                                   *)
+(***************************************************************************)
+H5 == Prog(<<S("p", <<B("p0", <<J("a0", "cbranch", "p1", ""), J("b0", "call", "q", "p2")>>, <<>>),
+                      B("p1", <<J("a1", "cbranch", "p0", ""), J("b1", "call", "x", "p2")>>, <<>>),
+                      B("p2", <<J("a2", "cbranch", "p3", ""), J("b2", "callind", "", "p3")>>, <<>>),
+                      B("p3", <<J("a3", "cbranch", "p4", ""), J("b3", "callother", "", "p4")>>, <<>>),
+                      B("p4", <<J("a4", "cbranch", "p5", ""), J("b4", "call", "q", "")>>, <<>>),
+                      B("p5", <<J("a5", "cbranch", "p5", ""), J("b5", "return", "", "")>>, <<>>)>>),
+             S("q", <<B("q0", <<J("c0", "cbranch", "q1", ""), J("d0", "return", "", "")>>, <<>>),
+                      B("q1", <<J("d1", "return", "", "")>>, <<>>)>>)>>,
+           <<X("x", FALSE)>>)
+PBlocks == <<"p0", "p1", "p2", "p3", "p4", "p5">>
+H5NodeBag ==
+  BagPlus(BagPlus(SeqBag([i \in 1..6 |-> BS(PBlocks[i], "p")]), SeqBag([i \in 1..6 |-> BE(PBlocks[i], "p")])),
+          SeqBag(<<BS("q0", "q"), BE("q0", "q"), BS("q1", "q"), BE("q1", "q"),
+                   CS("p0", "p", "q0", "q"), CS("p4", "p", "q0", "q"),
+                   CR("p0", "p", "q0", "q"), CR("p0", "p", "q1", "q")>>))
+H5EdgeBag ==
+  BagPlus(SeqBag([i \in 1..6 |-> BlockE(PBlocks[i], "p")]),
+  SeqBag(<<
+    BlockE("q0", "q"), BlockE("q1", "q"),
+    Edge("Jump", BE("p0", "p"), BS("p1", "p"), "a0", ""),
+    Edge("CallCombine", BE("p0", "p"), CS("p0", "p", "q0", "q"), "b0", ""),
+    Edge("Call", CS("p0", "p", "q0", "q"), BS("q0", "q"), "b0", ""),
+    Edge("Jump", BE("p1", "p"), BS("p0", "p"), "a1", ""),
+    Edge("ExternCallStub", BE("p1", "p"), BS("p2", "p"), "b1", ""),
+    Edge("Jump", BE("p2", "p"), BS("p3", "p"), "a2", ""),
+    Edge("ExternCallStub", BE("p2", "p"), BS("p3", "p"), "b2", ""),
+    Edge("Jump", BE("p3", "p"), BS("p4", "p"), "a3", ""),
+    Edge("Jump", BE("p4", "p"), BS("p5", "p"), "a4", ""),
+    Edge("CallCombine", BE("p4", "p"), CS("p4", "p", "q0", "q"), "b4", ""),
+    Edge("Call", CS("p4", "p", "q0", "q"), BS("q0", "q"), "b4", ""),
+    Edge("Jump", BE("p5", "p"), BS("p5", "p"), "a5", ""),
+    Edge("Jump", BE("q0", "q"), BS("q1", "q"), "c0", ""),
+    \* q returns from q0 and q1 to the one call that has a return site (b0, returns to p2)
+    Edge("CrCallStub", CS("p0", "p", "q0", "q"), CR("p0", "p", "q0", "q"), "", ""),
+    Edge("CrReturnStub", BE("q0", "q"), CR("p0", "p", "q0", "q"), "", ""),
+    Edge("ReturnCombine", CR("p0", "p", "q0", "q"), BS("p2", "p"), "b0", ""),
+    Edge("CrCallStub", CS("p0", "p", "q0", "q"), CR("p0", "p", "q1", "q"), "", ""),
+    Edge("CrReturnStub", BE("q1", "q"), CR("p0", "p", "q1", "q"), "", ""),
+    Edge("ReturnCombine", CR("p0", "p", "q1", "q"), BS("p2", "p"), "b0", "")>>))
+
 HandDerived ==
   /\ NodeBag(H1) = SeqBag(H1Nodes) /\ EdgeBag(H1) = SeqBag(H1Edges) /\ EntryNodes(H1) = H1Entries
   /\ BagSize(NodeBag(H1)) = 16 /\ BagSize(EdgeBag(H1)) = 20         \* the numbers graph.rs asserts
@@ -175,6 +225,9 @@ HandDerived ==
   /\ NodeBag(H4) = H4NodeBag /\ EdgeBag(H4) = H4EdgeBag /\ WellFormed(H4) /\ GraphSane(H4)
   /\ BagSize(H4EdgeBag) = 37 /\ H4EdgeBag[Edge("Jump", BE("f0", "f"), BS("f2", "f"), "i0", "c0")] = 2
   /\ DOMAIN EntryNodes(H4) = {"f", "g"}
+  /\ NodeBag(H5) = H5NodeBag /\ EdgeBag(H5) = H5EdgeBag /\ WellFormed(H5) /\ GraphSane(H5)
+  /\ BagSize(H5EdgeBag) = 27 /\ BagSize(H5NodeBag) = 20
+  /\ EntryNodes(H5) = [t \in {"p", "q"} |-> IF t = "p" THEN BS("p0", "p") ELSE BS("q0", "q")]
   /\ Succ(H4, BE("f0", "f"), IntraKinds) = {BS("f1", "f"), BS("f2", "f"), BS("f3", "f")}
   /\ ReachE(Edges(H4), {BS("g2", "g")}, IntraKinds) = {BS("g2", "g"), BE("g2", "g")}
 ASSUME HandDerived
@@ -204,6 +257,9 @@ Shapes(L, s) ==
       \cup {<<"call", c, r>> : c \in subs \cup {3}, r \in blks \cup {0}}
       \cup {<<"callind", r>> : r \in blks \cup {0}}
       \cup {<<"callother", r>> : r \in {1}}
+      \* conditionally executed calls (conditional branch to block 1, then a call-like instruction)
+      \cup {<<"cbranch+call", c, n>> : c \in subs \cup {3}}
+      \cup {<<"cbranch+callind", 1>>, <<"cbranch+callother", 1>>}
 TidOrNone(s, r) == IF r = 0 THEN "" ELSE BlkName(s, r)
 CalleeName(c) == IF c = 3 THEN "x" ELSE SubName(c)
 MkBlock(s, b, sh) ==
@@ -220,6 +276,9 @@ MkBlock(s, b, sh) ==
        [] sh[1] = "call" -> B(BlkName(s, b), <<J(a, "call", CalleeName(sh[2]), TidOrNone(s, sh[3]))>>, <<>>)
        [] sh[1] = "callind" -> B(BlkName(s, b), <<J(a, "callind", "", TidOrNone(s, sh[2]))>>, <<>>)
        [] sh[1] = "callother" -> B(BlkName(s, b), <<J(a, "callother", "", TidOrNone(s, sh[2]))>>, <<>>)
+       [] sh[1] = "cbranch+call" -> B(BlkName(s, b), <<J(a, "cbranch", BlkName(s, 1), ""), J(z, "call", CalleeName(sh[2]), TidOrNone(s, sh[3]))>>, <<>>)
+       [] sh[1] = "cbranch+callind" -> B(BlkName(s, b), <<J(a, "cbranch", BlkName(s, 1), ""), J(z, "callind", "", TidOrNone(s, sh[2]))>>, <<>>)
+       [] sh[1] = "cbranch+callother" -> B(BlkName(s, b), <<J(a, "cbranch", BlkName(s, 1), ""), J(z, "callother", "", TidOrNone(s, sh[2]))>>, <<>>)
 \* position k (1..Total) -> (sub, block)
 PosSub(L, k) == IF k <= L[1] THEN 1 ELSE 2
 PosBlk(L, k) == IF k <= L[1] THEN k ELSE k - L[1]
